@@ -2,7 +2,7 @@
 import itertools
 
 NAMES = ["A", "a", "", " ", "A:1", "B", "1"]
-KEYS = ["A", "a", "A:1", "A:2", "UNKNOWN", "B", "1", 0, 1, -1, 5]
+KEYS = ["A", "a", " A", "A:1", "A:2", "UNKNOWN", "B", "1", 0, 1, -1, 5]
 
 
 def alphabet():
@@ -11,7 +11,7 @@ def alphabet():
     ops += [["del", k] for k in KEYS]
     ops += [["setitem", k, n] for k in ("A", "A:1", "B") for n in ("A", "B")]
     ops += [["setval", k] for k in ("A", "A:2", 0)]
-    ops += [["get", m, add] for m in ("A", "Q") for add in (False, True)]
+    ops += [["get", m, add] for m in ("A", "Q", "") for add in (False, True)]
     ops += [["pop", i] for i in (0, -1, 3)]
     ops += [["getdef", m, src, add] for m in ("Q", "a") for src in ("A", 0) for add in (False, True)]
     ops += [["setattr", k] for k in ("A", "a", "B", "Q")]
